@@ -16,6 +16,13 @@
                        the same calls) says the call read a foreign value from: interference@nuked-chip_type,
                        interference@np2-lfotable; with no such cell: interference@unmodelled-<core> (+ drift).
      determinism       Ref[i][k] = Ref2[i][k]: label nondeterminism@<core>.
+                       Both comparisons cover the panning decisions of the call (pw = values handed to writePan, lr = the
+                       output bits written with them).  When the runs disagree on them and one side contradicts what the
+                       model derives from the instance's OWN soft-pan setting and pan controllers (Isolation!PanLaw), the
+                       label names that cause: interference@pan-setting / nondeterminism@pan-setting (a setting that came
+                       from somebody else's calls or from what the heap held before the instance was created).
+     leg C (pan)       every recorded panning decision of the three runs is in PanLaw of the model state; a decision
+                       outside it is drift ("panning decision not explained ...").
      P2  race freedom  threaded execution, detector active: no sanitizer report; label race@<symbol>.
                        The model predicts the racing cells per round (calls of one round run concurrently,
                        rounds are separated by a barrier); a reported symbol outside the predicted cells is drift.
@@ -31,6 +38,7 @@ vars == <<l, S, k, ref, ref2, meta, rnd, mraces, may, prev, fails, cnt, drift, e
 Cnt0 == [execs |-> 0, calls |-> 0, iso_audio |-> 0, iso_audible |-> 0, iso_tap |-> 0, interleaved |-> 0, foreign_alive |-> 0,
          det |-> 0, det_audio |-> 0, bound |-> 0, predicted |-> 0, confirmed |-> 0, masked |-> 0, unmodelled |-> 0,
          par_execs |-> 0, par_calls |-> 0, race_evals |-> 0, race_reports |-> 0, race_cells_predicted |-> 0, race_unpredicted |-> 0,
+         pan_decisions |-> 0, pan_off_centre |-> 0, pan_soft |-> 0, own_settings |-> 0, foreign_settings |-> 0,
          refined |-> 0, drifted |-> 0]
 Meta0 == [n |-> 0, mode |-> "seq", tsan |-> 0, races |-> <<>>]
 Rnd0 == [g |-> -1, acc |-> [i \in 1..MaxN |-> {}]]
@@ -50,8 +58,13 @@ AddSeq(fs, new) == IF new = <<>> THEN fs
 AddFails(F) == IF F = {} THEN fails ELSE AddSeq(fails, SetToSeq(F))
 Fail(w, ev, d) == [p |-> "C14", w |-> w, l |-> l, x |-> exec, e |-> ev.e, d |-> d]
 
-CmdFields == {"e", "i", "emu", "rate", "chips", "k", "p", "fr", "n", "v", "song", "g"}
+CmdFields == {"e", "i", "emu", "rate", "chips", "k", "p", "fr", "n", "v", "song", "g", "ch", "c", "vel", "s"}
 Cmd(r) == [f \in (DOMAIN r \cap CmdFields) |-> r[f]]
+
+\* panning decisions of one recorded call: <<value handed to writePan, L/R bits written with it>>
+PanSeq(r) == IF "pw" \in DOMAIN r /\ "lr" \in DOMAIN r THEN [q \in 1..Len(r.pw) |-> <<r.pw[q], IF q <= Len(r.lr) THEN r.lr[q] ELSE -1>>] ELSE <<>>
+PanBad(law, ps) == { q \in DOMAIN ps : [pw |-> ps[q][1], lr |-> ps[q][2]] \notin law }
+PanOff(ps) == Cardinality({ q \in DOMAIN ps : ps[q] # <<64, 3>> })
 
 \* sanitizer location -> cell of the model
 MameSyms == {"tl_tab", "sin_tab", "lfo_pm_table"}
@@ -124,6 +137,18 @@ StepOp(ev) ==
       pcmEq == (~audio) \/ (ev.pcm = R1.pcm /\ ev.r = R1.r)
       tapEq == ev.tap = R1.tap /\ ev.tn = R1.tn
       detEq == R1.pcm = R2.pcm /\ R1.tap = R2.tap /\ R1.tn = R2.tn /\ (audio => R1.r = R2.r)
+      \* panning decisions against the model's own-history state of the instance (after the call; Close / unknown controllers: no claim)
+      IP == IF ev.e = "Close" THEN S.inst[i] ELSE S1.inst[i]
+      panEval == bound /\ en /\ ev.e # "Play" /\ PanKnown(IP)
+      law == IF panEval THEN PanLaw(IP) ELSE {}
+      psO == PanSeq(ev)
+      ps1 == IF has THEN PanSeq(R1) ELSE <<>>
+      ps2 == IF has THEN PanSeq(R2) ELSE <<>>
+      badO == IF panEval THEN PanBad(law, psO) ELSE {}
+      bad1 == IF panEval THEN PanBad(law, ps1) ELSE {}
+      bad2 == IF panEval THEN PanBad(law, ps2) ELSE {}
+      panIso == psO # ps1 /\ (badO # {} \/ bad1 # {})      \* the interleaved run pans differently and one side is not the instance's own setting
+      panDet == ps1 # ps2 /\ (bad1 # {} \/ bad2 # {})
       g == IF "g" \in DOMAIN ev THEN ev.g ELSE -1
       newround == g # rnd.g
       \* threaded: may-values of the order-sensitive cells for this round (computed once, at the round's first record)
@@ -150,12 +175,19 @@ StepOp(ev) ==
       fIso == IF ~bound \/ pcmEq THEN {}
               ELSE IF diag # {} THEN { Fail("interference@" \o d, ev, ctx \o " obs=" \o ev.pcm \o " solo=" \o R1.pcm) : d \in diag }
               ELSE { Fail("interference@unmodelled-" \o emu, ev, ctx \o " obs=" \o ev.pcm \o " solo=" \o R1.pcm) }
-      fTap == IF ~bound \/ tapEq THEN {} ELSE { Fail("interference@regstream", ev, ctx \o " obs=" \o ev.tap \o " solo=" \o R1.tap) }
-      fDet == IF ~bound \/ detEq THEN {} ELSE { Fail("nondeterminism@" \o emu, ev, ctx \o " run1=" \o R1.pcm \o " run2=" \o R2.pcm) }
+      fTap == IF ~bound \/ tapEq THEN {}
+              ELSE IF panIso THEN { Fail("interference@pan-setting", ev, ctx \o " pan obs=" \o ToString(psO) \o " solo=" \o ToString(ps1) \o " own setting allows " \o ToString(law)) }
+              ELSE { Fail("interference@regstream", ev, ctx \o " obs=" \o ev.tap \o " solo=" \o R1.tap) }
+      fDet == IF ~bound \/ detEq THEN {}
+              ELSE IF panDet THEN { Fail("nondeterminism@pan-setting", ev, ctx \o " pan run1=" \o ToString(ps1) \o " run2=" \o ToString(ps2) \o " own setting allows " \o ToString(law)) }
+              ELSE { Fail("nondeterminism@" \o emu, ev, ctx \o " run1=" \o R1.pcm \o " run2=" \o R2.pcm) }
       fBind == IF bound THEN {} ELSE { Fail("harness-ref-binding", ev, "inst=" \o ToString(ev.i) \o " call=" \o ToString(kk)) }
       \* leg C: the model must explain every observed interference; a call the model cannot take is drift
       dr == (IF ~en THEN {"call not enabled in the model"} ELSE {})
             \cup (IF bound /\ ~pcmEq /\ diag = {} THEN {"PCM differs from the solo run but the model sees no foreign cell (" \o emu \o ")"} ELSE {})
+            \cup (IF badO \cup bad1 \cup bad2 # {}
+                  THEN {"panning decision not explained by the instance's own soft-pan setting and pan controllers: obs=" \o ToString(psO)
+                        \o " solo1=" \o ToString(ps1) \o " solo2=" \o ToString(ps2) \o " model=" \o ToString(law)} ELSE {})
       \* P2: model-predicted racing cells, per round
       rnd1 == IF newround THEN [g |-> g, acc |-> [Rnd0.acc EXCEPT ![i] = S1.last.acc]]
               ELSE [rnd EXCEPT !.acc[i] = @ \cup S1.last.acc]
@@ -193,6 +225,11 @@ StepOp(ev) ==
            !.race_reports = @ + (IF evalRace THEN Len(meta.races) ELSE 0),
            !.race_cells_predicted = @ + (IF evalRace THEN Cardinality(predicted) ELSE 0),
            !.race_unpredicted = @ + (IF evalRace THEN Cardinality(obsCells \ predicted) ELSE 0),
+           !.pan_decisions = @ + (IF panEval THEN Len(psO) + Len(ps1) + Len(ps2) ELSE 0),
+           !.pan_off_centre = @ + (IF panEval THEN PanOff(psO) + PanOff(ps1) + PanOff(ps2) ELSE 0),
+           !.pan_soft = @ + (IF panEval /\ IP.cfg.softpan # 0 THEN Len(psO) ELSE 0),
+           !.own_settings = @ + (IF bound /\ ev.e \in {"Set", "Ctl", "Bend"} THEN 1 ELSE 0),
+           !.foreign_settings = @ + (IF bound /\ ev.e \in {"On", "Gen"} /\ (\E j \in OtherAlive(S1, i) : S1.inst[j].cfg # S1.inst[i].cfg) THEN 1 ELSE 0),
            !.refined = @ + 1,
            !.drifted = @ + (IF alld # {} THEN 1 ELSE 0)]
 
